@@ -247,9 +247,12 @@ func panicViol(r any, props []string, what string) *Viol {
 // the library under test (or to the standard library called by it), not to package main.
 func panicOriginInLibrary(stack []byte) bool {
 	lines := strings.Split(string(stack), "\n")
-	i := 0
-	for i < len(lines) && !strings.HasPrefix(lines[i], "panic(") {
-		i++
+	// the ORIGINAL panic is the deepest "panic(" frame: handlers that re-raise it appear above
+	i := len(lines)
+	for k, l := range lines {
+		if strings.HasPrefix(l, "panic(") {
+			i = k
+		}
 	}
 	// frames come in pairs: function line, then file line
 	for i += 2; i+1 < len(lines); i += 2 {
